@@ -80,6 +80,7 @@ structure Cfg where
   ridLen       : Bool     -- receiveID: DH point encoding length check
   readSize     : Bool     -- readFrom: size check before make
   mdNil        : Bool     -- messageDispatch: nil message skipped
+  dispReplyNil : Bool     -- client.dispatch: a reply whose nonce has no pending request is ignored
   listenName   : Bool     -- serfNet.Listen: name length check
   listenCast   : Bool     -- serfNet.Listen: `event.(serf.MemberEvent)` comma-ok
   lookupName   : Bool     -- serfNet.Lookup / MembersID: name length checks
@@ -91,7 +92,7 @@ def Cfg.all : Cfg :=
     encNil := true, nonceLen := true, secShareNil := true, shareVNil := true, findPubVss := true, aggNil := true,
     toBigLen := true, qloopOk := true, qloopCast := true, rsNil := true, rsMake := true, groupInfoIds := true,
     byte32Len := true, crRand := true, sigIdxLen := true, recoverDedup := true, anyNil := true, ridCast := true,
-    ridLen := true, readSize := true, mdNil := true, listenName := true, listenCast := true, lookupName := true }
+    ridLen := true, readSize := true, mdNil := true, dispReplyNil := true, listenName := true, listenCast := true, lookupName := true }
 
 /-! ### association lists (Go maps) -/
 
